@@ -148,9 +148,13 @@ func r12_1(c *Ctx, r *Report) {
 				if !ok || call.Common().StaticCallee() == nil || call.Common().StaticCallee().Name() != "GetSolar" {
 					continue
 				}
-				src := "?"
-				if inner, ok := call.Common().Args[0].(*ssa.Call); ok && inner.Common().StaticCallee() != nil {
-					src = inner.Common().StaticCallee().Name()
+				inner, ok := call.Common().Args[0].(*ssa.Call)
+				if !ok || inner.Common().StaticCallee() == nil {
+					continue // the birth moment itself (lunar.GetSolar()): the other end of the interval
+				}
+				src := inner.Common().StaticCallee().Name()
+				if src != "GetNextJie" && src != "GetPrevJie" {
+					continue
 				}
 				whenForward := (i == 0) == e0true
 				if !pol {
